@@ -115,21 +115,29 @@ func (r *RibEntry) pruneIfEmpty() {
 	}
 }
 
+// updateNexthopsEnc flattens this entry and everything below it into the FIB.
+// All of it becomes visible to FIB lookups at once.
 func (r *RibEntry) updateNexthopsEnc() {
+	FibStrategyTable.UpdateBatch(func(fib FibBatch) {
+		r.updateNexthopsIn(fib)
+	})
+}
+
+func (r *RibEntry) updateNexthopsIn(fib FibBatch) {
 	// Path-filler nodes have no name and no FIB entry of their own
 	if r.Name != nil {
-		r.updateOwnNexthopsEnc()
+		r.updateOwnNexthopsIn(fib)
 	}
 
 	// Trigger update for all children for inheritance
 	for child := range r.children {
-		child.updateNexthopsEnc()
+		child.updateNexthopsIn(fib)
 	}
 }
 
-func (r *RibEntry) updateOwnNexthopsEnc() {
+func (r *RibEntry) updateOwnNexthopsIn(fib FibBatch) {
 	verifMutatingM(&Rib.mutex, "rib.flatten")
-	FibStrategyTable.ClearNextHopsEnc(r.Name)
+	fib.ClearNextHopsEnc(r.Name)
 
 	// An entry without routes contributes nothing to the FIB
 	if len(r.routes) == 0 {
@@ -166,7 +174,7 @@ func (r *RibEntry) updateOwnNexthopsEnc() {
 
 	// Add "flattened" set of nexthops
 	for nexthop, cost := range minCostRoutes {
-		FibStrategyTable.InsertNextHopEnc(r.Name, nexthop, cost)
+		fib.InsertNextHopEnc(r.Name, nexthop, cost)
 	}
 }
 
@@ -261,14 +269,23 @@ func (r *RibTable) CleanUpFace(faceId uint64) {
 	defer r.mutex.Unlock()
 	verifMutatingM(&r.mutex, "rib.mut")
 
-	r.RibEntry.CleanUpFace(faceId)
+	// The whole sweep is one change as far as FIB lookups are concerned
+	FibStrategyTable.UpdateBatch(func(fib FibBatch) {
+		r.RibEntry.cleanUpFaceIn(faceId, fib)
+	})
 }
 
 // CleanUpFace removes the specified face from this entry and all entries below it.
 func (r *RibEntry) CleanUpFace(faceId uint64) {
+	FibStrategyTable.UpdateBatch(func(fib FibBatch) {
+		r.cleanUpFaceIn(faceId, fib)
+	})
+}
+
+func (r *RibEntry) cleanUpFaceIn(faceId uint64, fib FibBatch) {
 	// Recursively clean children
 	for child := range r.children {
-		child.CleanUpFace(faceId)
+		child.cleanUpFaceIn(faceId, fib)
 	}
 
 	if r.Name == nil {
@@ -286,7 +303,7 @@ func (r *RibEntry) CleanUpFace(faceId uint64) {
 		}
 	}
 	r.routes = remaining
-	r.updateNexthopsEnc()
+	r.updateNexthopsIn(fib)
 	r.pruneIfEmpty()
 }
 
